@@ -294,6 +294,60 @@ func c14DaemonFaultJob(base int32) Job {
 				r.violate("C14", name, "daemon", "state-file-left-after-teardown", "DEL", desc, []string{desc})
 			}
 		}
-		return r.toScen(name, t0, map[string]int{"commands": ncmd})
+		// a set-up during which the k-th netfilter command fails (once, or from then on: the roll-back's commands fail as well): the
+		// request fails and "a failed setup leaves no port open"; a later DEL (fault gone) leaves nothing of the pod behind
+		setupY := func() {
+			h.reset()
+			h.request("ADD", "y1", "hp-y", "eth0")
+		}
+		setupY()
+		h.kern.ResetFault(0)
+		h.request("ADD", "x1", "hp-x", "eth0")
+		nadd := h.kern.Count()
+		for k := 1; k <= nadd; k++ {
+			for _, persistent := range []bool{false, true} {
+				if time.Now().After(deadline) {
+					r.exhausted = false
+					break
+				}
+				setupY()
+				natY := natOf("hp-y")
+				h.kern.ResetFault(0)
+				if persistent {
+					h.kern.FailFrom = k
+				} else {
+					h.kern.FailAt = k
+				}
+				c1, _ := h.request("ADD", "x1", "hp-x", "eth0")
+				h.kern.ResetFault(0)
+				r.evals++
+				how := "fails"
+				if persistent {
+					how = "and every later one fail"
+				}
+				desc := fmt.Sprintf("ADD(y1), ADD(x1) during which netfilter command %d of %d %s (HTTP %d)", k, nadd, how, c1)
+				r.distinct[hashOf("add", k, persistent, c1, natOf("hp-x"))] = true
+				if c1 != 200 {
+					if err := tryBind("tcp", base+17); err != nil {
+						r.violate("C14", name, "daemon", "host-port-open-after-failed-setup", "ADD", fmt.Sprintf("%s: %v", desc, err), []string{desc})
+					}
+				}
+				c2, b2 := h.request("DEL", "x1", "hp-x", "eth0")
+				if c2 != 200 {
+					r.violate("C14", name, "daemon", "del-after-failed-setup-fails", "DEL", desc+": "+firstLines(b2, 1), []string{desc})
+					continue
+				}
+				if left := natOf("hp-x"); len(left) > 0 {
+					r.violate("C14", name, "daemon", "nat-rules-left-after-failed-setup-and-teardown", "DEL", fmt.Sprintf("%s: %v", desc, left), []string{desc})
+				}
+				if fmt.Sprint(natOf("hp-y")) != fmt.Sprint(natY) {
+					r.violate("C14", name, "daemon", "other-pods-rules-changed", "ADD", desc, []string{desc})
+				}
+				if tryBind("tcp", base+17) != nil {
+					r.violate("C14", name, "daemon", "host-port-still-bound-after-teardown", "DEL", desc, []string{desc})
+				}
+			}
+		}
+		return r.toScen(name, t0, map[string]int{"commands": ncmd, "setup_commands": nadd})
 	}}
 }
